@@ -61,6 +61,17 @@ func (fr *Frame) run(st *State) *retInfo {
 		}
 		fr.emitEdges(rc, b, cur, func(to *ssa.BasicBlock, es *State) { fr.loopBack(b, to, es) }, nil)
 	}
+	if len(fr.panicStates) > 0 && fn.Recover != nil {
+		// panics caught by this function's deferred recover(): the deferred functions run in the panicking state (recover()
+		// returns non-nil there), then the function returns through its recover block with the named results as they are
+		ps := x.merge(fr.panicStates)
+		fr.panicStates = nil
+		x.c.comment(fr.key + ": recovered panic path")
+		x.panicDepth++
+		fr.runDefers(ps)
+		x.panicDepth--
+		fr.execBlock(fn.Recover, ps)
+	}
 	if len(fr.rets) == 0 {
 		return nil
 	}
